@@ -99,6 +99,13 @@ func legC19(e *Engine) []Violation {
 			cb.q("dict", itoa(sg), hx(f), "~", "~", "any")
 			for _, t := range cb.queryTerms()[:min(3, len(cb.queryTerms()))] {
 				cb.q("iter", itoa(sg), hx(f), hx(t), "~", "111", "w")
+				// Next / Advance scripts: after a failed call the same iterator is used again
+				if cb.n[sg] > 1 && r.Chance(1, 2) {
+					ops := []string{"iter", itoa(sg), hx(f), hx(t), "~", []string{"111", "110", "100"}[r.Intn(3)]}
+					ops = append(ops, cb.genOps(cb.n[sg])...)
+					ops = append(ops, "n", "n")
+					cb.q(ops...)
+				}
 			}
 		}
 		for _, d := range cb.sampleDocs(cb.n[sg], 4) {
@@ -224,8 +231,25 @@ func faultConsistent(healthy, got string) bool {
 		}
 	}
 	if hasErr {
+		// before the first error: position by position; after it: an error, nil, or a posting
+		// the healthy run delivered as well (the failed call may or may not have consumed one)
+		known := map[string]bool{}
+		for _, t := range ht {
+			known[t] = true
+		}
+		seenErr := false
 		for i, t := range gt {
-			if t == "err" || t == "nil" || strings.HasPrefix(t, "cnt=") || strings.HasPrefix(t, "icnt=") {
+			if t == "err" {
+				seenErr = true
+				continue
+			}
+			if t == "nil" || strings.HasPrefix(t, "cnt=") || strings.HasPrefix(t, "icnt=") {
+				continue
+			}
+			if seenErr {
+				if !known[t] {
+					return false
+				}
 				continue
 			}
 			if i >= len(ht) || ht[i] != t {
@@ -742,6 +766,22 @@ func legC15(e *Engine) []Violation {
 				})
 			}
 		}
+		// plain reads between the snapshots: the whole script once more with earlier objects handed
+		// back as prealloc, and DocsMatchingTerms on present and absent (field, term) pairs
+		rcx := newReuse(true, hashString(c.ID))
+		for _, q := range c.Queries {
+			_ = w.Exec(q, rcx)
+		}
+		for si := range w.segs {
+			if !ok(w.segs[si]) {
+				continue
+			}
+			for _, f := range cb.u.fields {
+				for _, t := range cb.u.terms {
+					_ = w.Exec(Query{"match", itoa(si), hx(f) + ":" + hx(t), hx(f) + ":6e6f2d737563682d7465726d", "6e6f6e65:" + hx(t)}, rcx)
+				}
+			}
+		}
 		img2, tr2 := snap()
 		bad := ""
 		for j := range img1 {
@@ -881,6 +921,12 @@ func legC09(e *Engine) []Violation {
 				defer wg.Done()
 				rr := NewRng(e.seed, "C09-thread", uint64(i*100+t))
 				order := permute(rr, len(c.Queries))
+				// every other goroutine hands its OWN earlier lists / iterators / readers back as
+				// prealloc (the intended usage; objects are never shared between goroutines)
+				var rc *ReuseCtx
+				if t%2 == 1 {
+					rc = newReuse(true, uint64(i*100+t))
+				}
 				for _, j := range order {
 					var a string
 					if c.Queries[j][0] == "stored" && rr.Chance(1, 2) {
@@ -888,7 +934,7 @@ func legC09(e *Engine) []Violation {
 					} else if c.Queries[j][0] == "dv" && rr.Chance(1, 2) {
 						a = w.execReentrantDV(c.Queries[j])
 					} else {
-						a = w.Exec(c.Queries[j], nil)
+						a = w.Exec(c.Queries[j], rc)
 					}
 					atomic.AddInt64(&answers, 1)
 					if a != seq[j] {
@@ -911,7 +957,7 @@ func legC09(e *Engine) []Violation {
 		}
 		e.noteCase(c, true)
 	}
-	e.rep.Queries = int(answers)
+	e.rep.Queries += int(answers)
 	e.count("concurrent-answers-compared", int(answers))
 	if raceEnabled {
 		e.count("race-detector-build", 1)
